@@ -139,6 +139,9 @@ def run(chk: Check, tier: str):
         for i in range(nstate):
             prog, inputs = progs_cheats.fam_statecheat(rnd, which=i % len(progs_cheats.STATE_CHEATS), ninputs=4)
             items.append(Item(prog, inputs, key=prog.name))
+        for br in (False, True):
+            prog, inputs = progs_cheats.etch_probe(br)
+            items.append(Item(prog, inputs, key=prog.name))
         skipped = 0
         for i in range(0, len(items), 120):
             if i:
